@@ -91,7 +91,7 @@ CONFIG = {
                   "unchanged tree: GRPCServerMuxer.Close never closes the wrapped listener (main socket of a multiplexed gRPC plugin stays, every history) and "
                   "GRPCServer.Stop / GRPCBroker.Close leave the plugin-side brokered sockets to goroutines that race the process exit. "
                   "Tied to the code by re-extracting the edges and the `go` site list on every run and by ~40 real sessions per run (own host process each, private "
-                  "directories on both sides, directory listing + goroutine dump after Kill) compared with the model's ledger. Seventh round: one brokered id advertised twice by the plugin and never asked for by the host, then Kill (dup=1 cells: no goroutine left 6 s later); the socket directory of a launch that fails before there is a runner is removed (fact socketDirRemovedIfNoRunner; found and guards the repaired defect D16). Eighth round: a gRPC plugin whose stdio stream ends at once with status Internal leaves no spinning reader (stdioerr=1 cells); the host's broker send loop is never left holding a reply (C20's reply-channel protocol as a C18 obligation); go-site 32 (the discard literal of blockedClientListener.Close, D19).",
+                  "directories on both sides, directory listing + goroutine dump after Kill) compared with the model's ledger. Seventh round: one brokered id advertised twice by the plugin and never asked for by the host, then Kill (dup=1 cells: no goroutine left 6 s later); the socket directory of a launch that fails before there is a runner is removed (fact socketDirRemovedIfNoRunner; found and guards the repaired defect D16). Eighth round: a gRPC plugin whose stdio stream ends at once with status Internal leaves no spinning reader (stdioerr=1 cells); the host's broker send loop is never left holding a reply (C20's reply-channel protocol as a C18 obligation); go-site 32 (the discard literal of blockedClientListener.Close, D19). Ninth round: brokered listeners accepted and closed at once, then Kill (flash=40 cells; GrpcMux.KnockLoopParams.usesAcceptSlot; knock_loop_ends_with_listener, second_lookup_witness; found and guard the repaired defect D21).",
     "level_note": "Partial: goroutine exit and the execution of reached Close calls are runtime behaviour (observed 3 s / 6 s after Kill, not proved). "
                   "Library behaviour enters as named assumptions (grpc-go closes a stopped server's listeners; tls listener embedding; process death closes pipes and connections). "
                   "Reattach and CleanupClients sites are in the site table but outside the histories; Windows TCP listeners not modelled.",
